@@ -27,6 +27,7 @@ type AtClause struct {
 	Label  string
 	E      *Expr
 	GoalOnly bool // "check at": not assumed afterwards
+	Assume   bool // "assume at": unchecked, listed
 }
 
 type Contract struct {
@@ -96,6 +97,7 @@ type ContractDB struct {
 	Ghosts map[string]*GhostVar
 	Consts map[string]*ConstDef
 	OnAlloc     []*OnAlloc
+	PkgFrames   map[string]string // package path -> reason: its uncontracted functions write no tracked state (trusted)
 	FileImports map[string]map[string]string // package path -> import alias (in its contract files) -> import path
 	GlobalDecls []*ConstDef // package-level variables whose initial value is obtained by eval
 	EvalConsts  []*ConstDef // evalconst NAME = <Go expr> (evaluated by running the package)
@@ -108,9 +110,9 @@ func newDB() *ContractDB {
 }
 
 var subKeywords = map[string]bool{"arith": true, "requires": true, "assumes": true, "allocates": true, "ensures": true, "assigns": true, "pure": true, "inline": true,
-	"trusted": true, "loop": true, "invariant": true, "decreases": true, "unroll": true, "assert": true, "check": true, "replay": true,
+	"trusted": true, "loop": true, "invariant": true, "decreases": true, "unroll": true, "assert": true, "check": true, "assume": true, "replay": true,
 	"nosafety": true, "abstract": true, "using": true, "let": true, "opaque": true}
-var topKeywords = map[string]bool{"func": true, "spec": true, "macro": true, "lemma": true, "axiom": true, "ghost": true, "const": true, "global": true, "evalconst": true, "onalloc": true}
+var topKeywords = map[string]bool{"func": true, "spec": true, "macro": true, "lemma": true, "axiom": true, "ghost": true, "const": true, "global": true, "evalconst": true, "onalloc": true, "pkgframe": true}
 
 // collect //@ lines of a file, joined into logical clauses.
 func contractLines(f *ast.File) []string {
@@ -239,6 +241,9 @@ func canonKey(decl string, pkgPath string) string {
 		}
 		if recv == "error" { // the predeclared interface: (error).Error
 			return "(error)" + decl[i+1:]
+		}
+		if strings.Contains(recv, ".") { // already qualified: (path/to/pkg.Iface).M
+			return "(" + star + recv + ")" + decl[i+1:]
 		}
 		return "(" + star + pkgPath + "." + recv + ")" + decl[i+1:]
 	}
@@ -389,6 +394,18 @@ func (db *ContractDB) loadFile(pkg *packages.Package, f *ast.File, fname string)
 			} else {
 				db.errf("%s: bad ghost decl", where)
 			}
+		case "pkgframe":
+			// pkgframe <package path> "<reason>": every function of that package that has no contract of its
+			// own is treated as a TRUSTED callee that writes nothing the verifier tracks (its results are
+			// unconstrained). One auditable claim per package instead of one per helper; listed as trusted.
+			if len(fs) >= 3 {
+				if db.PkgFrames == nil {
+					db.PkgFrames = map[string]string{}
+				}
+				db.PkgFrames[fs[1]] = strings.Trim(strings.TrimSpace(strings.TrimPrefix(rest, fs[1])), "\"")
+			} else {
+				db.errf("%s: bad pkgframe", where)
+			}
 		case "onalloc":
 			// onalloc <type> <ghost map> <value>: a freshly allocated object of the type gets this ghost value
 			if len(fs) >= 4 {
@@ -497,6 +514,17 @@ func (db *ContractDB) loadFile(pkg *packages.Package, f *ast.File, fname string)
 				if curLoop != nil {
 					curLoop.Unroll, _ = strconv.Atoi(rest)
 				}
+			case "assume":
+				// assume at <anchor>: expr -- an UNCHECKED fact about state the function did not build itself
+				// (e.g. an invariant of stored data it has just read); listed as an assumption in the evidence
+				r := strings.TrimPrefix(rest, "at ")
+				i := strings.Index(r, ":")
+				if i < 0 {
+					db.errf("%s: bad assume", where)
+					continue
+				}
+				lb, ex := splitLabel(r[i+1:])
+				cur.Asserts = append(cur.Asserts, &AtClause{Anchor: strings.TrimSpace(r[:i]), Label: lb, E: db.mustExpr(ex, where), Assume: true})
 			case "assert", "check":
 				// assert at <anchor>: expr   -- proved there, then assumed for what follows (a proof step)
 				// check at <anchor>: expr    -- proved there, NOT assumed afterwards (a goal; keeps quantified
